@@ -253,7 +253,7 @@ pub fn free(seed: u64, runs: usize, dir: &str, maxn: usize) {
         };
         let cfg = MmCfg {
             n,
-            k: 1 + (i % 3),
+            k: 1 + (i % 5),
             // any string is a delimiter for the library: empty, ASCII of 1..3 bytes, and non-ASCII (bytes != chars)
             delim: (*rng.pick(&["", " ", ",", "\t", "::", " | ", "\u{b7}", "\u{2192}", "a\u{e9}"])).to_string(),
             header: rng.chance(1, 2),
